@@ -65,6 +65,8 @@ def op_to_harness(o):
         arg = {"k": o["k"]}
     elif kind == "split":
         arg = {"n": 2, "ranges": [[0, 4], [2, 6]]} if o["k"] == 20 else {"n": o["k"]}
+    elif kind in ("merge", "coalesce"):
+        arg = {"n": o["k"]}
     elif kind.startswith("rw_") or kind.startswith("inj_"):
         arg = {"what": kind}
         kind = "rw"
